@@ -41,7 +41,16 @@ func main() {
 		fmt.Fprintln(os.Stderr, "usage: verifharness unit|scenario")
 		os.Exit(2)
 	}
-	rd := bufio.NewReaderSize(os.Stdin, 1<<20)
+	in := os.Stdin
+	if len(os.Args) > 2 {
+		f, err := os.Open(os.Args[2])
+		if err != nil {
+			fmt.Fprintln(os.Stderr, "cannot open input:", err)
+			os.Exit(2)
+		}
+		in = f
+	}
+	rd := bufio.NewReaderSize(in, 1<<20)
 	wr := bufio.NewWriterSize(os.Stdout, 1<<20)
 	defer wr.Flush()
 	dec := json.NewDecoder(rd)
@@ -64,7 +73,7 @@ func main() {
 				fmt.Fprintln(os.Stderr, "bad scenario:", err)
 				os.Exit(2)
 			}
-			out := runScenario(&sc)
+			out := runScenarioRepeated(&sc)
 			b, _ := json.Marshal(out)
 			wr.Write(b)
 			wr.WriteByte('\n')
